@@ -121,7 +121,8 @@ structure FunRec where
 structure PartRec where
   d : Nat
   blocks : List (Nat × List Nat) := []    -- blocks_dict, keyed by point handle (identity)
-  cons : List Nat := []
+  cons : List Nat := []                   -- list_of_constraints (user constraints and generated ones)
+  ortho : List Nat := []                  -- _list_of_orthogonality_constraints (generated at the latest call)
   deriving Repr
 
 inductive Sent where
@@ -453,11 +454,13 @@ def getBlock (p : Nat) (x : Nat) (k : Nat) : M Nat := do
     setPart p { pr with blocks := pr.blocks ++ [(x, bl)] }
     match bl[k]? with | some b => pure b | Option.none => throw .badRef
 
-/-- `add_partition_constraints` (appends; never resets) -/
+/-- `add_partition_constraints`: the constraints generated by the previous call are removed, then all
+orthogonality relations are generated again -/
 def addPartitionConstraints (p : Nat) : M Unit := do
   let pr ← getPart p
   let vals := pr.blocks.map (·.2)
-  let mut cs := pr.cons
+  let mut cs := pr.cons.filter (fun c => !pr.ortho.contains c)
+  let mut gen : List Nat := []
   for xi in vals do
     for xj in vals do
       for k in List.range pr.d do
@@ -467,9 +470,10 @@ def addPartitionConstraints (p : Nat) : M Unit := do
             let e ← ptIp a b
             let c ← consEqConst e 0
             cs := cs ++ [c]
+            gen := gen ++ [c]
           | _, _ => throw .badRef
   let pr ← getPart p
-  setPart p { pr with cons := cs }
+  setPart p { pr with cons := cs, ortho := gen }
 
 /-! ## class constraints -/
 
@@ -506,9 +510,10 @@ def funId (fr : FunRec) : String :=
 
 def pointId (p : PObj) (i : Nat) : String := match p.name with | some n => n | Option.none => s!"Point_{i}"
 
-def selList (fr : FunRec) : Gen.ListSel → List Triple
+def selList (fr : FunRec) (adj : List Triple) : Gen.ListSel → List Triple
   | .all => fr.pts
   | .stationary => fr.stat
+  | .adjoint => adj
 
 /-- one generic condition of a class through the one-list / two-list enumerators -/
 def runCond (f : Nat) (spec : Gen.CondSpec) : M Unit := do
@@ -517,7 +522,8 @@ def runCond (f : Nat) (spec : Gen.CondSpec) : M Unit := do
   let ss ← match fr.stat.head? with | some t => derefTriple t | Option.none => pure zeroSample
   let vd ← match fr.vPoint with | some h => do pure (← getP h).d | Option.none => pure []
   let q := spec.form fr.params
-  let l1 := selList fr spec.l1
+  let adj ← match fr.adjoint with | some t => do pure (← getF t).pts | Option.none => pure []
+  let l1 := selList fr adj spec.l1
   if !spec.two then
     let mut row : List (Option Nat) := []
     let mut i := 0
@@ -534,7 +540,7 @@ def runCond (f : Nat) (spec : Gen.CondSpec) : M Unit := do
     let fr ← getF f
     setF f { fr with tables := (fr.tables.filter (·.1 ≠ spec.name)) ++ [(spec.name, [row])] }
   else
-    let l2 := selList fr spec.l2
+    let l2 := selList fr adj spec.l2
     let mut table : List (List (Option Nat)) := []
     let mut i := 0
     for ti in l1 do
@@ -631,29 +637,23 @@ def setClassConstraints (f : Nat) : M Unit := do
   | .LinearOperator =>
     let L := fr.params.getD 0 0
     let tpts ← match fr.adjoint with | some t => do pure (← getF t).pts | Option.none => pure []
-    for pxy in fr.pts do
-      let si ← derefTriple pxy
-      for puv in tpts do
-        let sj ← derefTriple puv
-        let e ← mkE (QForm.inst (symPv si sj zeroSample [] [] []) (symFv si sj zeroSample) (Gen.LinearOperator.adjoint L))
-        let c ← mkCons e true
-        let fr ← getF f
-        setF f { fr with classCons := fr.classCons ++ [c] }
+    -- adjoint consistency through the generic two-list enumerator (named, with a table), then the two LMIs
+    for spec in Gen.LinearOperator.glue do runCond f spec
     lmiOver f fr.pts (Gen.LinearOperator.lmi0_entry L)
     lmiOver f tpts (Gen.LinearOperator.lmi0_entry L)
   | .BlockSmoothConvexFunction =>
-    -- hand-written double loop of the class; the `tables_of_constraints` it builds are the
-    -- aliased `[[]] * n` lists of the source: every row is the same list
+    -- hand-written double loop of the class; one table per block (rows = samples, `0` on the diagonal)
     let some part := fr.partition | throw (.unsupported "partition")
     let d := (← getPart part).d
     let fid := funId fr
-    let mut rowsPerBlock : List (List (Option Nat)) := List.replicate d []
+    let mut tabs : List (List (List (Option Nat))) := List.replicate d []      -- per block: list of rows
     let mut i := 0
     for ti in fr.pts do
+      let mut rows : List (List (Option Nat)) := List.replicate d []           -- per block: the row of sample i
       let mut j := 0
       for tj in fr.pts do
         if ti.sameComponents tj then
-          rowsPerBlock := rowsPerBlock.map (· ++ [Option.none])
+          rows := rows.map (· ++ [Option.none])
         else
           let mut newRows : List (List (Option Nat)) := []
           for k in List.range d do
@@ -668,15 +668,16 @@ def setClassConstraints (f : Nat) : M Unit := do
             let c ← mkCons e false (some s!"IC_{fid}_smoothness_convexity_block_{k}({pointId xi i}, {pointId xj j})")
             let fr ← getF f
             setF f { fr with classCons := fr.classCons ++ [c] }
-            newRows := newRows ++ [(rowsPerBlock.getD k []) ++ [some c]]
-          rowsPerBlock := newRows
+            newRows := newRows ++ [(rows.getD k []) ++ [some c]]
+          rows := newRows
         j := j + 1
+      tabs := (List.range d).map (fun k => (tabs.getD k []) ++ [rows.getD k []])
       i := i + 1
-    let n := fr.pts.length
     let fr ← getF f
-    let tabs := (List.range d).map (fun k =>
-      (s!"smoothness_convexity_block_{k}", List.replicate n (rowsPerBlock.getD k [])))
-    setF f { fr with tables := (fr.tables.filter (fun t => !(tabs.map (·.1)).contains t.1)) ++ tabs }
+    -- `np.array([]).shape == (0,)`: no table is stored for a function without samples
+    if !fr.pts.isEmpty then
+      let named := (List.range d).map (fun k => (s!"smoothness_convexity_block_{k}", tabs.getD k []))
+      setF f { fr with tables := (fr.tables.filter (fun t => !(named.map (·.1)).contains t.1)) ++ named }
   | _ =>
     for spec in glueOf fr do runCond f spec
 
@@ -703,7 +704,10 @@ def sendOrder (mcons pepCons pepPsd : List Nat) (funs : List FunSent) (partCons 
     ++ partCons.flatMap (·.map Sent.cons)
 
 def collect : M Unit := do
-  let obj ← newLeafE
+  -- the objective leaf is created at the first solve and reused afterwards
+  let obj ← match (← get).objective with
+    | some o => pure o
+    | Option.none => newLeafE
   modify fun w => { w with objective := some obj }
   let w ← get
   let leafFuns := (List.range w.funs.size).filter (fun h => match w.funs[h]? with | some f => f.isLeaf | Option.none => false)
